@@ -508,6 +508,10 @@ MASKS5 = [
 ]
 
 
+# integer constants export.py imports from sibling modules (name: value)
+imported_consts = {}
+
+
 def base_globals(repo, hw, cs, scalars, extra=None):
     """module-level names of export.py as model values; module functions
     are bound from the tree (helpers a refactoring adds are picked up)"""
@@ -538,6 +542,27 @@ def base_globals(repo, hw, cs, scalars, extra=None):
     }
     mini = Mini(g)
     mini.bind_module(repo.tree(EXP))
+    # plain constants imported from sibling modules (`from .writer import
+    # CHUNK_SIZE`) take their value from the parsed sibling
+    base = EXP.rsplit("/", 1)[0]
+    for st in repo.tree(EXP).body:
+        if isinstance(st, ast.ImportFrom) and st.level == 1 and st.module \
+                and "." not in st.module:
+            rel = f"{base}/{st.module}.py"
+            if not repo.exists(rel):
+                continue
+            for a in st.names:
+                local = a.asname or a.name
+                if local in mini.g:
+                    continue
+                v = repo.module_assign(rel, a.name, missing_ok=True)
+                if v is None:
+                    continue
+                try:
+                    mini.g[local] = mini.expr(v, {}, set())
+                    imported_consts.setdefault(local, mini.g[local])
+                except (MiniError, ModelFault):
+                    pass
     if extra:
         mini.g.update(extra)
     return mini
@@ -546,16 +571,32 @@ def base_globals(repo, hw, cs, scalars, extra=None):
 # ----------------------------------------------------------------------
 # R2.2
 
+def cnote(cval, ints):
+    return "" if cval is None else f", {' = '.join(ints)} = {cval}"
+
+
 def r22(ctx, repo):
     f = repo.func(EXP, "yield_filtered_array_stacks")
     n_eval = 0
     for route, sliceable in (("array route", True),
                              ("event-wise route", False)):
         bad = None
-        for cs in (1, 2, 3, 5):
+        # (chunk size of the feature, value of the integer constants the
+        # module imports: the writer's constants are small or large
+        # compared with the feature's own chunk size)
+        base_globals(repo, HW(), 2, set())
+        ints = [k for k, v in imported_consts.items()
+                if isinstance(v, int) and not isinstance(v, bool)]
+        grid = [(cs, None) for cs in (1, 2, 3, 5)]
+        if ints:
+            grid += [(3, 2), (5, 2), (5, 3), (2, 5)]
+        for cs, cval in grid:
             for n in range(0, 3 * cs + 3):
                 hw = HW()
                 mini = base_globals(repo, hw, cs, set())
+                if cval is not None:
+                    for k in ints:
+                        mini.g[k] = cval
                 data = Feat("image", 2 * n + 2, sliceable)
                 idx = [2 * i + 1 for i in range(n)]
                 for form in ("arr", "list"):
@@ -565,21 +606,23 @@ def r22(ctx, repo):
                         chunks = mini.call(f, (data, ind))
                     except ModelFault as e:
                         bad = bad or (f"{n} selected events, chunk size "
-                                      f"{cs}: {e}")
+                                      f"{cs}{cnote(cval, ints)}: {e}")
                         continue
                     flat = []
                     for c in chunks:
                         evs = flatten(c)[None]
                         if not evs or len(evs) > cs:
                             bad = bad or (
-                                f"{n} selected events, chunk size {cs}: a "
+                                f"{n} selected events, chunk size {cs}"
+                                f"{cnote(cval, ints)}: a "
                                 f"chunk holds {len(evs)} events")
                         flat += evs
                     want = [Ev("image", i) for i in idx]
                     if flat != want and bad is None:
                         gi = [e.i if isinstance(e, Ev) else e for e in flat]
                         bad = (f"{n} selected events (indices {idx}), chunk "
-                               f"size {cs}: chunks concatenate to {gi}")
+                               f"size {cs}{cnote(cval, ints)}: chunks "
+                               f"concatenate to {gi}")
         ctx.ob("R2.2", bad is None,
                f"{route}: the chunks tile the index list for every "
                f"selection size 0..3c+2 and chunk size c in 1,2,3,5"
@@ -1761,5 +1804,24 @@ def _dispatch_in_helper(src):
 
 TWINS = list(TWINS) + [
     ("writer: kind dispatch in a private method", WRI, _dispatch_in_helper),
+]
+
+
+MUTANTS = list(MUTANTS) + [
+    ("chunk size capped by the writer constant at one site only (seeded)",
+     EXP,
+     [("from .writer import RTDCWriter\n",
+       "from .writer import CHUNK_SIZE, RTDCWriter\n"),
+      ("    chunk_size = chunk_shape[0]\n",
+       "    chunk_size = min(chunk_shape[0], CHUNK_SIZE)\n")], "R2.2"),
+]
+
+TWINS = list(TWINS) + [
+    ("chunk size capped consistently (buffer as well)", EXP,
+     [("from .writer import RTDCWriter\n",
+       "from .writer import CHUNK_SIZE, RTDCWriter\n"),
+      ("    chunk_size = chunk_shape[0]\n",
+       "    chunk_size = min(chunk_shape[0], CHUNK_SIZE)\n"
+       "    chunk_shape = (chunk_size,) + tuple(chunk_shape[1:])\n")]),
 ]
 
